@@ -200,6 +200,30 @@ func loopMakesProgress(p *Prog, info *types.Info, s *ast.ForStmt) (bool, string)
 				}
 			}
 		}
+		// `off += size` with size the width reported by utf8.DecodeRune*(S[off:]): the width is 0 when S[off:] is
+		// empty, so the step is progress only if the loop condition keeps off inside that very string
+		// (`off < len(S)`); a bound taken from another string (the text before it was lower-cased) does not
+		if as, ok := st.(*ast.AssignStmt); ok && as.Tok == token.ADD_ASSIGN && len(as.Lhs) == 1 && len(as.Rhs) == 1 && vars[exprStr(p.Fset, as.Lhs[0])] {
+			if id, ok := ast.Unparen(as.Rhs[0]).(*ast.Ident); ok {
+				if dec := decodeWidthSource(p, info, s, id); dec != nil {
+					ctr := exprStr(p.Fset, as.Lhs[0])
+					okBound := false
+					if se, ok := ast.Unparen(dec).(*ast.SliceExpr); ok && se.Low != nil && se.High == nil && exprStr(p.Fset, se.Low) == ctr {
+						want1 := ctr + " < len(" + exprStr(p.Fset, se.X) + ")"
+						ast.Inspect(s.Cond, func(n ast.Node) bool {
+							if be, ok := n.(*ast.BinaryExpr); ok && exprStr(p.Fset, be) == want1 {
+								okBound = true
+							}
+							return true
+						})
+					}
+					if !okBound {
+						weakStep = exprStr(p.Fset, as.Rhs[0]) + " (a decoded width, 0 at the end of the decoded string, and the condition does not bound `" + ctr + "` by the length of that string)"
+						return false
+					}
+				}
+			}
+		}
 		for v := range assignedVars(p, st) {
 			if vars[v] {
 				return true
@@ -1413,4 +1437,37 @@ func knownPositive(p *Prog, info *types.Info, loop *ast.ForStmt, e ast.Expr) boo
 		return false
 	}
 	return false
+}
+
+// decodeWidthSource: id is the width result of `r, id := utf8.DecodeRune[InString](arg)` somewhere in the loop:
+// returns arg.
+func decodeWidthSource(p *Prog, info *types.Info, loop *ast.ForStmt, id *ast.Ident) ast.Expr {
+	obj := info.Uses[id]
+	if obj == nil {
+		return nil
+	}
+	var arg ast.Expr
+	ast.Inspect(loop.Body, func(n ast.Node) bool {
+		as, ok := n.(*ast.AssignStmt)
+		if !ok || len(as.Lhs) != 2 || len(as.Rhs) != 1 {
+			return true
+		}
+		l1, ok := as.Lhs[1].(*ast.Ident)
+		if !ok || (info.Defs[l1] != obj && info.Uses[l1] != obj) {
+			return true
+		}
+		call, ok := ast.Unparen(as.Rhs[0]).(*ast.CallExpr)
+		if !ok || len(call.Args) != 1 {
+			return true
+		}
+		if sel, ok := call.Fun.(*ast.SelectorExpr); ok && (sel.Sel.Name == "DecodeRuneInString" || sel.Sel.Name == "DecodeRune") {
+			if pk, ok := sel.X.(*ast.Ident); ok {
+				if pn, ok := info.Uses[pk].(*types.PkgName); ok && pn.Imported().Path() == "unicode/utf8" {
+					arg = call.Args[0]
+				}
+			}
+		}
+		return true
+	})
+	return arg
 }
